@@ -500,8 +500,11 @@ class ParticleLexer(MCNP_Lexer):
                     break
         if len(words) >= 1 and words[0].lower() == "mode":
             return True
-        # the value of the source variable PAR (sdef par=x)
-        key = before.rstrip().rstrip("=").rstrip().lower()
+        # the value of the source variable PAR (sdef par=x); comments and a continuation may stand in between
+        proper = " ".join(
+            line.split("$")[0] for line in before.split("\n") if not is_comment(line)
+        )
+        key = re.sub(r"[\s&=]+$", "", proper).lower()
         return key.endswith("par") and not key[-4:-3].isalnum()
 
 
